@@ -35,6 +35,18 @@ impl Tally {
     }
 }
 
+/// first failing case of a group (used as witness search for obligations on derive-macro output: the toy fields of the
+/// `field` group are real `#[derive(MontConfig)]` fields, i.e. they run the generator of the tree under test)
+pub fn first_fail(group: &str, seed: u64) -> Option<String> {
+    let mut t = Tally::new();
+    match group {
+        "field" => field::field_layer(&mut t, seed),
+        "sqrt" => field::sqrt_all(&mut t),
+        _ => return None,
+    }
+    t.fails.into_iter().next()
+}
+
 pub fn run(group: &str, seed: u64) -> i32 {
     let mut t = Tally::new();
     match group {
